@@ -11,6 +11,7 @@ import Driver.C18
 import Driver.C09
 import Driver.C15
 import Driver.C07
+import Driver.C07crc
 import Driver.C05
 import Driver.C17
 import Driver.C03
@@ -34,6 +35,7 @@ def dispatch (prop : String) (c obs : String) : String × String × Bool :=
   | "C05" => C05.run c obs
   | "C05range" => C05.runRange c obs
   | "C07" => C07.run c obs
+  | "C07crc" => C07crc.run c obs
   | "C15" => C15.runStore c obs
   | "C15retry" => C15.runRetry c obs
   | "C09" => C09.run c obs
